@@ -2,9 +2,12 @@ package engine
 
 import (
 	"encoding/binary"
+	"encoding/json"
 	"fmt"
+	"os"
 	"path/filepath"
 	"sort"
+	"strings"
 
 	"github.com/mk6i/mkdb/storage"
 	"verif/lib"
@@ -158,6 +161,56 @@ func applyTorn(base image, path string, segs []flushSeg, tc tornChoice) image {
 	return img
 }
 
+// c04TreeAtomic: is every tree either written completely or not at all by this
+// torn state? Ownership of the flush's pages is read from the image the
+// completed flush would have left (all segments up to and including the torn
+// one, with its header). A page no tree reaches counts as a tree of its own.
+// ok is false when the completed image cannot be walked.
+func c04TreeAtomic(base image, tbl string, segs []flushSeg, tc tornChoice) (atomic bool, ok bool) {
+	full := tc
+	full.subset = uint(1)<<uint(len(segs[tc.seg].pages)) - 1
+	img := applyTorn(base, tbl, segs, full)
+	b := img[tbl]
+	if h := segs[tc.seg].header; h != nil {
+		b = writeAt(b, 0, h.Data)
+	}
+	owners, err := storage.VerifOwners(b, lib.ScratchRoot())
+	if err != nil {
+		return false, false
+	}
+	type wn struct{ written, skipped int }
+	per := map[string]*wn{}
+	for i, p := range segs[tc.seg].pages {
+		o, has := owners[p.Off]
+		if !has {
+			o = fmt.Sprintf("unreachable@%d", p.Off)
+		}
+		if per[o] == nil {
+			per[o] = &wn{}
+		}
+		if tc.subset>>uint(i)&1 == 1 {
+			per[o].written++
+		} else {
+			per[o].skipped++
+		}
+	}
+	for _, x := range per {
+		if x.written > 0 && x.skipped > 0 {
+			return false, true
+		}
+	}
+	return true, true
+}
+
+// c04D7Listed: the tree-atomic images inside the D7 predicate that known_findings.json lists one by one
+// as failing (key = hash of the history, the flush and the torn state). c04ListKeys: emit the keys of
+// failing tree-atomic images as tags (used once, by tools_d7_list.py, to write that list).
+var (
+	c04D7Listed = map[string]bool{}
+	c04ListKeys bool
+	c04UseList  bool
+)
+
 // headerCountersChanged: does the pending header write change the last row id
 // or the allocation frontier relative to the persisted header?
 func headerCountersChanged(baseFile []byte, h *storage.VerifWrite) bool {
@@ -196,6 +249,23 @@ func runC04(env *lib.Env, rep *lib.Report) {
 		c04Level2Bits = 10
 		c04SkipKnown = false
 	}
+	// the individual list covers the quick tier's bounds (the thorough tier explores them first, as its phase 1);
+	// beyond them the whole D7 predicate is executed and counted
+	c04UseList = !env.Thorough()
+	c04ListKeys = os.Getenv("VERIF_C04_LISTKEYS") != ""
+	c04D7Listed = map[string]bool{}
+	if k, ok := env.OpenKnown()["D7-torn-flush-with-new-pages"]; ok && len(k.Args) > 0 {
+		var a struct {
+			Inputs []string `json:"tree_atomic_failing_inputs"`
+		}
+		if err := json.Unmarshal(k.Args, &a); err != nil {
+			panic(lib.HarnessError{Msg: "known_findings.json: D7 args: " + err.Error()})
+		}
+		for _, h := range a.Inputs {
+			c04D7Listed[h] = true
+		}
+	}
+	rep.Bounds["D7 images that write every tree completely or not at all"] = fmt.Sprintf("always executed; %d of them are listed individually (history + torn state) as failing in known_findings.json, any other failing one is a violation", len(c04D7Listed))
 	rep.Bounds["second-level subsets (crash inside the recovery of a torn image)"] = map[bool]string{true: "all subsets (<= 10 pages)", false: "not torn in the quick tier"}[env.Thorough()]
 	rep.Bounds["images claimed by an open known finding"] = map[bool]string{true: "executed and counted", false: "counted but not executed in the quick tier"}[env.Thorough()]
 	rep.Bounds["suffix"] = "after the final recovery: none, or one statement of {INSERT 1, UPDATE half/all, DELETE upper/last/all} per table, then crash + recovery + model check"
@@ -332,6 +402,7 @@ func (w *world) tearAndRecover(c *lib.Ctx, base image, tbl string, segs []flushS
 	frontier := persistedNextFree(base, tbl)
 	desc := "flush completed"
 	matchKnown := ""
+	treeAtomic := false
 	if !tc.complete {
 		s := segs[tc.seg]
 		var written, skipped []uint64
@@ -366,6 +437,11 @@ func (w *world) tearAndRecover(c *lib.Ctx, base image, tbl string, segs []flushS
 		// contains a page at or beyond the persisted allocation frontier
 		if _, ok := known["D7-torn-flush-with-new-pages"]; ok && len(written) > 0 && len(skipped) > 0 && newWritten+newSkipped > 0 {
 			matchKnown = "D7-torn-flush-with-new-pages"
+			if c04UseList {
+				if at, ok := c04TreeAtomic(base, tbl, segs, tc); ok && at {
+					treeAtomic = true
+				}
+			}
 		} else if _, ok := known["D24-stale-header-after-torn-flush"]; ok && len(written) > 0 && headerCountersChanged(base[tbl], s.header) {
 			// D24 predicate (input only): something was written, the header was not, and the pending header moves lastKey or the allocation frontier
 			matchKnown = "D24-stale-header-after-torn-flush"
@@ -373,6 +449,28 @@ func (w *world) tearAndRecover(c *lib.Ctx, base image, tbl string, segs []flushS
 	}
 	c.Logf("level %d: %s", level, desc)
 	c.Observe(c.Trace())
+	if matchKnown != "" && treeAtomic && c04UseList {
+		// inside the D7 predicate, but every tree is written completely or not at all: these images are
+		// executed in every tier and only the individually listed ones may fail
+		key := fmt.Sprintf("%016x", lib.HashString(strings.Join(c.Trace(), "\n")))
+		c.Tag("D7-tree-atomic-image-executed")
+		listed := c04D7Listed[key]
+		id := matchKnown
+		defer func() {
+			switch {
+			case c.Failed() && c04ListKeys:
+				c.Tag("d7-failing-key:" + key)
+				c.SetKnown(id)
+			case c.Failed() && listed:
+				c.SetKnown(id)
+			case c.Failed():
+				c.Logf("this image is inside the D7 predicate but is not one of the %d listed failing inputs (key %s)", len(c04D7Listed), key)
+			case listed:
+				c.Tag("known-not-violating:" + id)
+			}
+		}()
+		matchKnown = ""
+	}
 	if matchKnown != "" && c04SkipKnown {
 		c.Tag("known-image-not-executed:" + matchKnown)
 		return true
